@@ -13,6 +13,12 @@ CORE = ["crypto_core/ed25519/core_ed25519.c", "crypto_scalarmult/ed25519/ref10/s
 STUBS = ["ideal_ed25519.c", "ideal_hash.c", "rng.c", "misuse.c", "libc.c", "x86_builtins.c"]
 
 
+E2_LIMB = ['fe25519-51']
+
+
+LEVEL_TEXT = LEVEL_TEXT + (" Field kernels (E2 irsym limb mode): fe25519_mul/sq/sq2/mul32/add/sub/neg of the Edwards unit == the field operation mod 2^255-19 with limb bounds, for all limbs in the stated ranges.")
+
+
 def obligations(tier):
     obs = []
     obs.append(Ob("canonical-predicates", "C07/predicates.c", units=["crypto_core/ed25519/ref10/ed25519_ref10.c", "sodium/utils.c"],
